@@ -169,6 +169,19 @@ func build(race bool) {
 	args = append(args, "./simtest")
 	cmd := exec.Command(goBin, args...)
 	cmd.Dir = filepath.Join(verifDir, "sim")
+	if skip := os.Getenv("VERIF_SKIP"); skip != "" {
+		// development aid: build from a private copy without files that are still being written
+		src := filepath.Join(workDir, "src")
+		rs := []string{"-a", "--delete"}
+		for _, f := range strings.Fields(skip) {
+			rs = append(rs, "--exclude="+f)
+		}
+		rs = append(rs, filepath.Join(verifDir, "sim")+"/", src+"/")
+		if out, err := exec.Command("rsync", rs...).CombinedOutput(); err != nil {
+			die(2, "rsync: %v\n%s", err, out)
+		}
+		cmd.Dir = src
+	}
 	cmd.Env = env
 	out, err := cmd.CombinedOutput()
 	if err != nil {
